@@ -351,7 +351,12 @@ func checkC08(rc *RunCtx, sc *C1, out *C1Outcome) {
 		return
 	}
 	if success {
-		rc.Violate("success_under_fault", fmt.Sprintf("client=%s|fault=%s|resp=%T", sc.Kind, sc.Fault, out.Resp), "Do reported success (%T) to a request of fc %d although the transport %s; consumed %d bytes: %x", out.Resp, sc.Req.FC, sc.Fault, len(out.Consumed), trunc(out.Consumed, 40))
+		related := ""
+		if !frameAnswersRequest(sc, out.Consumed) {
+			// what was accepted does not even carry the request's transaction id / unit id / function code
+			related = "|frame_unrelated_to_request"
+		}
+		rc.Violate("success_under_fault", fmt.Sprintf("client=%s|fault=%s|resp=%T%s", sc.Kind, sc.Fault, out.Resp, related), "Do reported success (%T) to a request of fc %d although the transport %s; consumed %d bytes: %x", out.Resp, sc.Req.FC, sc.Fault, len(out.Consumed), trunc(out.Consumed, 40))
 		return
 	}
 	if !isNilResponse(out.Resp) {
@@ -431,4 +436,13 @@ func isNilResponse(r any) bool {
 	}
 	v := reflect.ValueOf(r)
 	return v.Kind() == reflect.Pointer && v.IsNil()
+}
+
+// frameAnswersRequest: the bytes the client accepted start with the header a reply to this request must carry
+// (Modbus TCP: the request's transaction id, protocol id 0, unit id, function code with or without the exception bit; RTU: unit id and function code).
+func frameAnswersRequest(sc *C1, got []byte) bool {
+	if sc.Kind == KTCP {
+		return len(got) >= 8 && got[0] == byte(sc.TID>>8) && got[1] == byte(sc.TID) && got[2] == 0 && got[3] == 0 && got[6] == sc.Unit && got[7]&0x7f == sc.Req.FC
+	}
+	return len(got) >= 2 && got[0] == sc.Unit && got[1]&0x7f == sc.Req.FC
 }
